@@ -108,6 +108,15 @@ func c10Catalogue(r *Rich, thorough bool) []c10Case {
 		add("claim-id", core.R("", "--json", "claim", t))
 		add("claim-id", core.R("", "--json", "claim", t, "--agent", "ag"))
 		add("claim-id", core.R("", "--json", "--agent", "ag", "claim", t))
+		// the same write requests with the output switches that change what is built for the reply
+		for _, q := range []string{"-q", "--quiet", "-v"} {
+			add("claim-id", core.R("", q, "--json", "claim", t, "--agent", "ag"))
+			add("claim-id", core.R("", q, "claim", t, "--agent", "ag"))
+			add("set", core.R("", q, "--json", "set", t).In(`{"title":"quiet","state":"done"}`))
+			add("set", core.R("", q, "--json", "set", t, "--title", "quiet"))
+			add("set", core.R("", q, "set", t, "--state", "done"))
+			add("set", core.R("", "--json", "set", t, q, "--body-stdin").In("quiet body"))
+		}
 		add("show", core.R("", "--json", "show", t))
 		add("show", core.R("", "--json", "show", t, "--short"))
 	}
@@ -177,6 +186,10 @@ func c10Catalogue(r *Rich, thorough bool) []c10Case {
 	add("claim", core.R("", "--json", "claim", "--epic", r.Unknown, "--agent", "ag"))
 	add("claim", core.R("", "--json", "claim", "--epic", r.E2, "--agent", "ag"))
 	add("claim", core.R("", "--json", "claim", "a", "b"))
+	for _, q := range []string{"-q", "-v"} {
+		add("claim", core.R("", q, "--json", "claim", "--agent", "ag"))
+		add("claim", core.R("", q, "claim", "--epic", r.E1, "--agent", "ag"))
+	}
 	// plan rejections
 	for _, doc := range []string{
 		``, `{`, `{"title":"P"}`, `{"title":"P","tasks":[]}`, `{"title":"P","tasks":null}`, `{"tasks":[{"title":"a"}]}`,
